@@ -541,6 +541,8 @@ def h7(ctx):
         want = 'signal::Signal::' + m
         for p, evs in ret_paths(ctx, b):
             calls = [e for e in p.events if e.kind == 'call']
+            if ctx.body('signal::Signal::<T>::' + m) is None and any(c.name == 'signal::Signal::wake' for c in calls):
+                continue  # Signal::send/recv merged into this method: G3 checks the transfer-then-wake order here
             if len(calls) != 1 or calls[0].name != want:
                 ctx.violate(key, p, '%s is not a plain forward to Signal::%s' % (key, m))
             else:
@@ -554,6 +556,8 @@ def h7(ctx):
         for p, evs in ret_paths(ctx, b):
             ctx.oblige(1)
             calls = [e for e in p.events if e.kind == 'call']
+            if ctx.body('signal::Signal::<T>::terminate') is None and any(c.name == 'signal::Signal::wake' for c in calls):
+                continue
             if len(calls) != 1 or calls[0].name != 'signal::Signal::terminate':
                 ctx.violate(key, p, 'SignalTerminator::terminate is not a plain forward to Signal::terminate')
     # construction sites
